@@ -85,10 +85,15 @@ CHECKS['C01'] = dict(
          'incl. recursive=False and BUILTIN_FUNCTIONS/EQUALITY_OPERATORS) and must agree. The exploration runs under the '
          'Liveness monitor so that a divergence is attributed by the specification to an analysis defect already listed as a '
          'known finding, or reported.',
-    note=_MP_NOTE + ' Language covered so far: assignments, expression statements, del, if/else, while, for over tracer lists, '
-         'break/continue/return, try/except/finally with explicit raise, with, nested defs with closures/nonlocal, calls of '
-         'local functions (3 forms), and/or/not, conditional expressions. Executions in which a callee-raised exception is '
-         'caught by the caller are outside the class (flag oc) and skipped, as the property documents.',
+    note=_MP_NOTE + ' Language covered: assignments (plain, augmented, tuple), expression statements, del, if/else, while, for '
+         'over tracer lists and range, break/continue/return, try/except(as)/finally with explicit raise, with, nested defs with '
+         'closures/nonlocal, default values and decorators, calls of local and of module-level functions (recursive conversion or '
+         'unconverted callee), lambdas (called in place / stored), comprehensions, and/or/not, conditional expressions, loop '
+         'directives, attribute state, list state (also under the LISTS feature), the integer profile on all inputs. Not '
+         'generated: globals, builtins, methods of user classes, partials, subscripts other than list[int], generators. '
+         'Executions in which a callee-raised exception is caught by the caller, or a finally block raises while an exception '
+         'propagates, are outside the class (flag oc) and skipped; when a finally block ran during propagation only "an '
+         'exception escapes" and the effects up to the raise are compared (flag finx). Every converted run is under a 5 s alarm.',
     technique='TLA+ operational semantics as oracle, TLC enumerates all executions, each replayed into the converted function',
     design_ref='DESIGN.md sections 3.1, 4, 5 (C01)', engine='tlc-minipy')
 
@@ -120,7 +125,8 @@ CHECKS['C04'] = dict(
          'and of lambdas stored and called later, comprehension elements and conditions, decorators and default values of '
          'nested defs. Comprehension targets that shadow a function variable keep lambda-free elements (CPython 3.12.1 '
          'miscompiles the generated, correct, code otherwise; DESIGN section 14). Executions on which C01 already diverges '
-         'are judged by C01 only.',
+         'are judged by C01 only. Method calls on lists are expected as calls only when the LISTS feature is off; events inside '
+         'module-level callees only under recursive conversion.',
     technique='TLA+ semantics predicts operator-event sequences; embedding checked against events recorded from the converted code; AST scan of generated code',
     design_ref='DESIGN.md section 5 (C04)', engine='tlc-minipy')
 CHECKS['C17'] = dict(
@@ -146,8 +152,9 @@ CHECKS['C02'] = dict(
          'value. The class predicate "definitely assigned before every read" is decided by the specification (no execution '
          'of the program raises within the bounds).',
     note='The backend is an instance of the backend family the property describes, not a proof for all backends. Attribute '
-         'state (o.v on objects, aliases, objects shared with nested functions) is generated; constant-key state (d[const]) and '
-         'the in-TLC StateTuples invariant on the pre-control_flow tree (the "equivalently" clause) are not. Speculative loop runs are capped (40 iterations) and such runs are '
+         'state (o.v on objects, aliases, objects shared with nested functions) and constant-key state (o[\'v\'] on a dict whose '
+         'keys exist before the statement), augmented and tuple assignment are generated; the in-TLC StateTuples invariant on '
+         'the pre-control_flow tree (the "equivalently" clause) is not built. Speculative loop runs are capped (40 iterations) and such runs are '
          'not judged. Bounds: loop trips <=3/4, inputs 0..2/0..3.',
     technique='TLA+ operational semantics as oracle over all inputs; converted function executed under a functional operator backend',
     design_ref='DESIGN.md section 5 (C02)', engine='tlc-minipy')
